@@ -21,6 +21,7 @@ type ex struct {
 	code  string
 	typ   *gtype
 	k     constant.Value // non-nil: a constant
+	fresh bool           // a map / slice that was just made (make, a composite literal, append): no alias of anything
 }
 
 // ---------------------------------------------------------------------------------------
@@ -31,11 +32,16 @@ type gvar struct {
 	coq      string
 	typ      *gtype
 	goName   string
-	indexOf  *gvar          // this is the index variable of a `for i := 0; i < len(s); i++` loop over indexOf
-	elemCode string         // ... and s[i] is this code
-	banned   string         // non-empty: any use is outside the subset, for this reason
-	known    constant.Value // the variable is known to hold this constant here (ok of a comma-ok lookup, under its match)
+	indexOf  *gvar             // this is the index variable of a `for i := 0; i < len(s); i++` loop over indexOf
+	elemCode string            // ... and s[i] is this code
+	banned   string            // non-empty: any use is outside the subset, for this reason
+	known    constant.Value    // the variable is known to hold this constant here (ok of a comma-ok lookup, under its match)
+	fcoq     map[string]string // struct variable: the Coq names that currently hold the fields that were assigned
+	ptr      bool              // struct parameter passed by pointer (assignments to its fields reach the caller)
+	seq      int               // declaration order (binder order of loop functions is declaration order, not name order)
 }
+
+var gvarSeq int
 
 type venv struct{ scopes []map[string]*gvar }
 
@@ -45,6 +51,12 @@ func (e *venv) clone() *venv {
 		m := map[string]*gvar{}
 		for k, v := range s {
 			c := *v
+			if v.fcoq != nil {
+				c.fcoq = map[string]string{}
+				for f, n := range v.fcoq {
+					c.fcoq[f] = n
+				}
+			}
 			m[k] = &c
 		}
 		n.scopes = append(n.scopes, m)
@@ -61,7 +73,11 @@ func (e *venv) lookup(name string) *gvar {
 	}
 	return nil
 }
-func (e *venv) declare(name string, v *gvar) { e.scopes[len(e.scopes)-1][name] = v }
+func (e *venv) declare(name string, v *gvar) {
+	gvarSeq++
+	v.seq = gvarSeq
+	e.scopes[len(e.scopes)-1][name] = v
+}
 
 // assign rebinds an existing variable (in the scope where it lives) to a new Coq name.
 func (e *venv) assign(name, coq string) {
@@ -92,6 +108,11 @@ type gtTr struct {
 	usedVars   map[string]bool
 	fieldNames map[string]bool
 	brk        []brkTarget
+	cnt        []brkTarget // where `continue` goes
+	cfg        *gtCfg
+	loopIndex  map[ast.Node]int // for / range statements of the function, numbered in source order from 1
+	inMutCall  bool
+	elemMut    bool // the function assigns elements of maps / slices: no local aliases of maps / slices
 }
 
 func (tr *gtTr) newName(goName string) string {
@@ -251,6 +272,11 @@ func (tr *gtTr) expr(e ast.Expr, env *venv) ex {
 			tr.fn.valueParams[name] = true
 			return ex{code: name, typ: tValue}
 		}
+		if x.Type != nil {
+			if t := tr.g.resolveTypeSoft(tr.p, tr.f, x.Type, 0); t.kind == kMap && t.supported() {
+				return tr.mapLit(x, t, env)
+			}
+		}
 		gtFail("composite literal %s is outside the subset here", gtExprText(x.Type))
 	case *ast.SliceExpr:
 		return tr.slice(x, env)
@@ -347,7 +373,12 @@ func (tr *gtTr) field(v *gvar, name string) ex {
 			if fl.typ.usesValue() {
 				tr.fn.usesV = true
 			}
-			return ex{code: sv.coq + "_" + name, typ: fl.typ}
+			code := sv.coq + "_" + name
+			if c := v.fcoq[name]; c != "" {
+				code = c
+			}
+			tr.usedVars[code] = true
+			return ex{code: code, typ: fl.typ}
 		}
 	}
 	gtFail("%s has no field %s", v.goName, name)
@@ -616,6 +647,8 @@ func (tr *gtTr) args(list []ast.Expr, env *venv) ([]ex, []gbind) {
 }
 
 func (tr *gtTr) call(c *ast.CallExpr, env *venv) ex {
+	allowMut := tr.inMutCall // only the outermost call of a statement may change state, not a call among its arguments
+	tr.inMutCall = false
 	if c.Ellipsis.IsValid() {
 		gtFail("call with ... is outside the subset")
 	}
@@ -639,6 +672,10 @@ func (tr *gtTr) call(c *ast.CallExpr, env *venv) ex {
 				gtFail("len of %s is outside the subset", a.typ.name)
 			case "panic":
 				gtFail("panic used as an expression")
+			case "append":
+				return tr.appendCall(c, env)
+			case "make":
+				return tr.makeCall(c, env)
 			}
 			gtFail("call of %s is outside the subset", id.Name)
 		}
@@ -680,12 +717,17 @@ func (tr *gtTr) call(c *ast.CallExpr, env *venv) ex {
 		e.binds = nil
 		args = append(args, tr.checkArg(callee, i, e))
 	}
+	tr.inMutCall = allowMut
+	defer func() { tr.inMutCall = false }()
 	return tr.applyFn(callee, args, binds)
 }
 
 // applyFn builds the call of a translated (or abstract) function.
 func (tr *gtTr) applyFn(callee *gtFn, args []ex, binds []gbind) ex {
-	if len(callee.results) != 1 {
+	if len(callee.muts) > 0 && !tr.inMutCall {
+		gtFail("call of %s, which changes its receiver or an argument, inside an expression (only as a statement or as the whole right-hand side of an assignment)", callee.key)
+	}
+	if len(callee.results) != 1 && len(callee.muts) == 0 {
 		gtFail("call of %s, which does not return exactly one value", callee.key)
 	}
 	parts := []string{callee.coqName}
@@ -697,7 +739,17 @@ func (tr *gtTr) applyFn(callee *gtFn, args []ex, binds []gbind) ex {
 		parts = append(parts, a.code)
 	}
 	code := "(" + strings.Join(parts, " ") + ")"
-	rt := callee.results[0]
+	var rt *gtype
+	if len(callee.muts) > 0 {
+		rt = &gtype{kind: kOther, name: "(state, results) of " + callee.key, valueKind: -1}
+		for _, r := range callee.results {
+			if r.usesValue() {
+				tr.fn.usesV = true
+			}
+		}
+	} else {
+		rt = callee.results[0]
+	}
 	if rt.usesValue() {
 		tr.fn.usesV = true
 	}
@@ -1087,7 +1139,7 @@ func (tr *gtTr) slice(x *ast.SliceExpr, env *venv) ex {
 		gtFail("three-index slice is outside the subset")
 	}
 	s := tr.expr(x.X, env)
-	if s.typ.kind != kString {
+	if s.typ.kind != kString && s.typ.kind != kSlice {
 		gtFail("slicing a %s is outside the subset", s.typ.name)
 	}
 	binds := s.binds
@@ -1109,7 +1161,11 @@ func (tr *gtTr) slice(x *ast.SliceExpr, env *venv) ex {
 		hi = h.code
 	}
 	v := tr.fresh()
-	return ex{binds: mergeBinds(binds, []gbind{{v, "go_slice " + s.code + " " + lo + " " + hi}}), code: v, typ: s.typ}
+	fn := "go_slice"
+	if s.typ.kind == kSlice {
+		fn = "go_slice_l"
+	}
+	return ex{binds: mergeBinds(binds, []gbind{{v, fn + " " + s.code + " " + lo + " " + hi}}), code: v, typ: s.typ}
 }
 
 func elemType(t *gtype) *gtype {
@@ -1117,4 +1173,88 @@ func elemType(t *gtype) *gtype {
 		return basicInts["byte"]
 	}
 	return t.elem
+}
+
+// append(s, x, ...) on a slice of the subset: the value is s followed by the new elements.  (Go may or may not
+// reuse s's array; the translation is the value semantics, see STATE in gotrans.go.)
+func (tr *gtTr) appendCall(c *ast.CallExpr, env *venv) ex {
+	if len(c.Args) < 1 {
+		gtFail("append: arity")
+	}
+	s := tr.expr(c.Args[0], env)
+	if s.typ.kind != kSlice && s.typ != tBytes {
+		gtFail("append to a %s is outside the subset", s.typ.name)
+	}
+	et := elemType(s.typ)
+	binds := s.binds
+	var elems []string
+	for _, a := range c.Args[1:] {
+		e := tr.expr(a, env)
+		if et.kind == kValue {
+			e = tr.toValue(e, "append")
+		}
+		if e.typ.kind != et.kind {
+			gtFail("append of a %s to %s", e.typ.name, s.typ.name)
+		}
+		if e.typ.kind == kInt && e.typ.untyped && e.k != nil && !fitsInt(e.k, et) {
+			gtFail("append: constant %s overflows %s", e.k, et.name)
+		}
+		binds = mergeBinds(binds, e.binds)
+		if s.typ == tBytes {
+			elems = append(elems, "Z.to_N "+e.code)
+		} else {
+			elems = append(elems, e.code)
+		}
+	}
+	return ex{binds: binds, code: "(" + s.code + " ++ [" + strings.Join(elems, "; ") + "])", typ: s.typ, fresh: true}
+}
+
+// make(map[K]V) / make(map[K]V, n): the empty map
+func (tr *gtTr) makeCall(c *ast.CallExpr, env *venv) ex {
+	if len(c.Args) < 1 {
+		gtFail("make: arity")
+	}
+	t := tr.g.resolveType(tr.p, tr.f, c.Args[0], 0)
+	if t.kind != kMap || !t.supported() {
+		gtFail("make(%s) is outside the subset (only maps)", t.name)
+	}
+	if t.usesValue() {
+		tr.fn.usesV = true
+	}
+	for _, a := range c.Args[1:] {
+		if e := tr.expr(a, env); len(e.binds) > 0 || e.typ.kind != kInt {
+			gtFail("make: size argument")
+		}
+	}
+	return ex{code: "(@nil (" + t.key.coq() + " * " + t.elem.coq() + "))", typ: t, fresh: true}
+}
+
+// map[K]V{k1: v1, ...}: the entries are inserted in source order (a later equal key replaces an earlier one)
+func (tr *gtTr) mapLit(x *ast.CompositeLit, t *gtype, env *venv) ex {
+	if t.usesValue() {
+		tr.fn.usesV = true
+	}
+	set := "go_map_set_s"
+	if t.key.kind == kInt {
+		set = "go_map_set_z"
+	}
+	code := "(@nil (" + t.key.coq() + " * " + t.elem.coq() + "))"
+	var binds []gbind
+	for _, el := range x.Elts {
+		kv, ok := el.(*ast.KeyValueExpr)
+		if !ok {
+			gtFail("map literal element is not key: value")
+		}
+		k := tr.expr(kv.Key, env)
+		v := tr.expr(kv.Value, env)
+		if t.elem.kind == kValue {
+			v = tr.toValue(v, "map literal")
+		}
+		if k.typ.kind != t.key.kind || v.typ.kind != t.elem.kind {
+			gtFail("map literal entry of kinds %s: %s in a %s", k.typ.name, v.typ.name, t.name)
+		}
+		binds = mergeBinds(mergeBinds(binds, k.binds), v.binds)
+		code = "(" + set + " " + k.code + " " + v.code + " " + code + ")"
+	}
+	return ex{binds: binds, code: code, typ: t, fresh: true}
 }
